@@ -230,8 +230,16 @@ class QuicPacketBuilder:
         else:
             header_size = 3 + len(self._peer_cid)
 
-        # check we have enough space
-        if packet_start + header_size >= self._buffer_capacity:
+        # check we have enough space: the smallest packet has its header, enough
+        # payload for the header protection sample and the AEAD tag
+        if (
+            packet_start
+            + header_size
+            + PACKET_NUMBER_MAX_SIZE
+            - PACKET_NUMBER_SEND_SIZE
+            + crypto.aead_tag_size
+            > self._buffer_capacity
+        ):
             raise QuicPacketBuilderStop
 
         # A datagram containing an INITIAL packet may have to be padded to
